@@ -94,6 +94,10 @@ pub enum UseKind {
         pover: Option<u32>,
         omit_defaults: bool,
     },
+    /// `let _lvU: logic<Pkg::C> = 0; let _lwU: logic = _lvU && _lvU;` — clean while
+    /// `Pkg::C == 1`, an `invalid_logical_operand` warning in THIS file when the
+    /// constant (defined in another file) becomes larger
+    LogicalOnConst(ItemId, usize),
     /// `let _qU: $sv::SvPkg::sv_t = 0;`
     SvType,
     /// `inst _sU: $sv::SvMod (x: .., y: ..);`
@@ -350,6 +354,7 @@ impl Project {
                         | UseKind::ConstWidth(p, _)
                         | UseKind::ImportItem(p, _)
                         | UseKind::ImportWild(p, _)
+                        | UseKind::LogicalOnConst(p, _)
                         | UseKind::TypeUse(p)
                         | UseKind::StructUse(p)
                         | UseKind::EnumUse(p)
@@ -723,6 +728,10 @@ impl Project {
                     pover,
                     omit_defaults,
                 } => self.render_inst(m, k, *child, garg, pover, *omit_defaults, o),
+                UseKind::LogicalOnConst(p, c) => o.push_str(&format!(
+                    "    let _lv{k}: logic<{}> = 0;\n    let _lw{k}: logic = _lv{k} && _lv{k};\n",
+                    self.const_path(*p, *c)
+                )),
                 UseKind::SvType => o.push_str(&format!("    let _q{k}: $sv::SvPkg::sv_t = 0;\n")),
                 UseKind::SvInst => o.push_str(&format!(
                     "    var _sy{k}: logic<8>;\n    inst _sv{k}: $sv::SvMod (\n        x: {},\n        y: _sy{k},\n    );\n",
